@@ -69,11 +69,11 @@ Section Integrate.
     | [], _ => []
     end.
 
-  (* colvar_grid_gradient::average(smoothed = false): note that integrate() calls it without argument *)
-  Definition average1 (gd : list T) (gc : list Z) : T :=
+  (* colvar_grid_gradient::average(smoothed): sum of value_output_smoothed(ix, smoothed) / nx[0] *)
+  Definition average1 (smoothed : bool) (gd : list T) (gc : list Z) : T :=
     match gd with
     | [] => zero
-    | _ => div (fold_left add (vals1 false gd gc) zero) (ofZ (Z.of_nat (length gd)))
+    | _ => div (fold_left add (vals1 smoothed gd gc) zero) (ofZ (Z.of_nat (length gd)))
     end.
 
   (* the loop of integrate(): set_value(ix, sum); sum += (val - corr) * widths[0] *)
@@ -84,15 +84,40 @@ Section Integrate.
     end.
 
   (* integrate(), nd == 1: the data array of the PMF grid (nx points if periodic, nx+1 otherwise) *)
+  (* corr = gradients->average(b_smoothed) (after the fix "1-D PMF of a periodic variable was not periodic with
+     smoothed gradients"; before it the call was average(), i.e. average1 false) *)
   Definition integrate1 (per b_smoothed : bool) (w : T) (gd : list T) (gc : list Z) : list T :=
-    let corr := if per then average1 gd gc else zero in
+    let corr := if per then average1 b_smoothed gd gc else zero in
     let '(l, s) := cumsum w corr (vals1 b_smoothed gd gc) zero in
     if per then l else l ++ [s].
 
   (* the value the loop holds after the last bin (what index nx would receive) *)
   Definition closing1 (per b_smoothed : bool) (w : T) (gd : list T) (gc : list Z) : T :=
-    let corr := if per then average1 gd gc else zero in
+    let corr := if per then average1 b_smoothed gd gc else zero in
     snd (cumsum w corr (vals1 b_smoothed gd gc) zero).
+
+  (* ---- colvar_grid_gradient::write_1D_integral (the .ti.pmf file of colvarbias::write_state_data):
+     int_vals = [0; partial sums], min = the smallest partial sum (starting from 0), output int_vals[i] - min,
+     nx+1 values whatever the periodicity.  Bin value: value(ix) / samples_here (a division, unlike
+     value_output_smoothed) or 0 for an empty bin; (after the fix "TI PMF of a periodic variable ..." the
+     correction is subtracted in every bin; before it an empty bin added nothing at all) *)
+  Definition ti_val (d : T) (c : Z) : T :=
+    if s_has_samples sc then (if c =? 0 then zero else div d (ofZ c)) else d.
+
+  Fixpoint ti_loop (w corr : T) (gd : list T) (gc : list Z) (integral mn : T) : list T * T :=
+    match gd with
+    | [] => ([], mn)
+    | d :: gd' =>
+      let c := match gc with c :: _ => c | [] => 0 end in
+      let integral := add integral (mul (sub (ti_val d c) corr) w) in
+      let mn := if nltb O integral mn then integral else mn in
+      let '(l, m) := ti_loop w corr gd' (tl gc) integral mn in (integral :: l, m)
+    end.
+
+  Definition ti_integral1 (per : bool) (w : T) (gd : list T) (gc : list Z) : list T :=
+    let corr := if per then average1 false gd gc else zero in
+    let '(l, m) := ti_loop w corr gd gc zero zero in
+    map (fun v => sub v m) (zero :: l).
 
   (* ------------------------------------------------------------------ two dimensions *)
   Variable b_smoothed : bool.
@@ -308,3 +333,60 @@ Section Integrate.
   End Dim3.
 
 End Integrate.
+
+(* ---------------------------------------------------------------------- conjugate gradient
+   integrate_potential::nr_linbcg_sym (the preconditioner calls are commented out in the C++), written once
+   for any finite grid: P = index vectors, pts = all of them in storage order, A = atimes.
+   Vectors are total functions on P that are re-materialised (tab) after each array assignment loop. *)
+Section CG.
+  Context {T : Type} (O : NumOps T).
+  Variable P : Type.
+  Variable peqb : P -> P -> bool.
+  Variable pts : list P.
+  Variable A : (P -> T) -> P -> T.
+
+  (* an array filled by a loop over all points: a table looked up by index vector *)
+  Definition tab (f : P -> T) : P -> T :=
+    let l := map (fun q => (q, f q)) pts in
+    fun p => match find (fun e => peqb (fst e) p) l with Some e => snd e | None => n0 O end.
+
+  (* for (s = 0.0, j = 0; j < nt; j++) s += u[j] * v[j] *)
+  Definition vdot (u v : P -> T) : T := fold_left (fun s q => nadd O s (nmul O (u q) (v q))) pts (n0 O).
+  Definition l2norm (u : P -> T) : T := nsqrt O (vdot u u).
+  (* EPS = 1.0e-14 *)
+  Definition cg_eps : T := ndiv O (n1 O) (nofZ O 100000000000000).
+
+  (* the while (iter < itmax) loop; fuel = itmax - iter.  Returns ((x, r), (iter, err)) *)
+  Fixpoint cg_loop (fuel : nat) (bnrm tol : T) (iter : Z) (x r p : P -> T) (bkden err : T)
+    : ((P -> T) * (P -> T)) * (Z * T) :=
+    match fuel with
+    | 0%nat => ((x, r), (iter, err))
+    | S fuel' =>
+      let iter := (iter + 1)%Z in
+      let bknum := vdot r r in
+      let p := if (iter =? 1)%Z then tab r
+               else tab (fun q => nadd O (nmul O (ndiv O bknum bkden) (p q)) (r q)) in
+      let z := tab (A p) in
+      let akden := vdot z p in
+      let ak := ndiv O bknum akden in
+      let x := tab (fun q => nadd O (x q) (nmul O ak (p q))) in
+      let r := tab (fun q => nsub O (r q) (nmul O ak (z q))) in
+      let err := ndiv O (l2norm r) bnrm in
+      if nleb O err tol then ((x, r), (iter, err))
+      else cg_loop fuel' bnrm tol iter x r p bknum err
+    end.
+
+  (* nr_linbcg_sym(b, x, tol, itmax, iter, err): x0 is the content of data (the previous solution),
+     err0 the caller's variable, which is left untouched when no iteration is made *)
+  Definition cg_solve (itmax : nat) (tol : T) (b x0 : P -> T) (err0 : T) : ((P -> T) * (P -> T)) * (Z * T) :=
+    let r := tab (fun q => nsub O (b q) (A x0 q)) in
+    let bnrm := l2norm b in
+    if nltb O bnrm cg_eps then ((x0, r), (0%Z, err0))
+    else cg_loop itmax bnrm tol 0%Z x0 r r (n1 O) err0.
+End CG.
+
+(* integrate(itmax, tol, err), nd == 2 / nd == 3: solve  atimes(data) = divergence  starting from data *)
+Definition integrate2 {T} (O : NumOps T) (sh : shape2) (itmax : nat) (tol : T) (D data : ix2 -> T) (err0 : T) :=
+  cg_solve O ix2 ix2_eqb (all_ix2 sh) (atimes2 O sh) itmax tol D data err0.
+Definition integrate3 {T} (O : NumOps T) (sh : shape3) (itmax : nat) (tol : T) (D data : ix3 -> T) (err0 : T) :=
+  cg_solve O ix3 ix3_eqb (all_ix3 sh) (atimes3 O sh) itmax tol D data err0.
